@@ -52,7 +52,7 @@ impl Property for C01 {
         "a case is a 2D or 3D polyline (2-64 vertices quick / up to 400 thorough; 7 shapes incl. collinear runs, lattice paths, dense-then-sparse; scale 1e-3..1e3; tol 1e-9/1e-6/1e-4 of scale; open / exactly closed / closed within tol / force-closed; injected exact and sub-tolerance duplicates) plus 4-24 probes constructed from the built curve (exact vertex lengths, one ulp either side, interior fractions, 0, L, one ulp outside, far outside, fractions). Non-trivial: >=3 stored vertices with two different edge lengths, and the probes include an exact vertex hit and an ulp neighbour. Distinct = distinct canonical JSON."
     }
     fn cases(t: Tier) -> u32 {
-        t.pick(300_000, 10_000_000)
+        t.pick(1_200_000, 10_000_000)
     }
     fn expected_labels() -> Vec<&'static str> {
         vec!["2d", "3d", "closed", "open", "force_closed_appended", "dups_removed", "seam_station", "interior_vertex_station", "ulp_neighbour", "outside_none", "last_vertex"]
